@@ -99,12 +99,22 @@ def run_cli(case):
                     builtins.input = real_input
             elif route == "config":
                 lines = ["[config]"]
+                # layouts of a list value that INI syntax allows: entries on indented lines, with a blank line
+                # between them, or the first entry on the key's own line
+                lay = case.get("config_layout", "plain")
+
+                def listval(key, vals):
+                    if lay == "blank":
+                        return key + " =\n    " + "\n\n    ".join(vals)
+                    if lay == "keyline":
+                        return key + " = " + "\n    ".join(vals)
+                    return key + " =\n    " + "\n    ".join(vals)
                 if opts["A"]:
-                    lines.append(case.get("announce_key", "announce") + " =\n    " + "\n    ".join(ann))
+                    lines.append(listval(case.get("announce_key", "announce"), ann))
                 if opts["W"]:
-                    lines.append("web-seed =\n    " + "\n    ".join(VALS["W"]))
+                    lines.append(listval("web-seed", VALS["W"]))
                 if opts["H"]:
-                    lines.append("http-seed =\n    " + "\n    ".join(VALS["H"]))
+                    lines.append(listval("http-seed", VALS["H"]))
                 if opts["P"]:
                     lines.append("private = true")
                 elif case.get("explicit_false"):
